@@ -35,6 +35,11 @@ CHECKS = {
    text="AnalyzerTable and QuickTable are DEFINED in the specification from SamplerDist (heralds inserted, post-selection rule sets, photon number n or <= n, at most one photon per mode for threshold detection) and evaluated exactly by TLC (invariants AnalyzeBound, QuickBound); the real Analyzer (probabilities, performance, error rate) and QuickSampler (renormalised distribution) must agree on every generated circuit x input x rule set x detector mode, and must not raise where the sampler works (photon-carrying heralds, heralds with different in/out modes).",
    note="Rule-set post-selection only (4 rule sets); lambda predicates are exercised in C07/C11. " + TB,
    technique="TLC evaluates the defining relations between the emulator objects on LwCircuit states; behaviours replayed into Analyzer / QuickSampler"),
+ "C11": dict(
+   level="model_checking", design="DESIGN.md section 5 C11",
+   text="LwCache models configuration, comparison snapshot, cached and continuous distribution of Sampler and QuickSampler and the Analyzer's result attributes, with a Variant constant for the mechanism. TLC explores the COMPLETE state graph (all interleavings of reconfigurations, in-place edits and reads, no depth bound): the mechanism of the pinned tree is refuted (model-derived minimal histories are stored in the evidence), the repaired mechanism satisfies Fresh and AnalysisOwn. Behaviours of the specification are replayed on one long-lived real object and after every read its answer is compared with a freshly created object with the same settings (the property verbatim).",
+   note="The replay world is fixed (two lossy heralded 3-mode circuits differing only in herald photon number, one shared Parameter, one PostSelection object, two inputs, two brightness values, two back-ends). " + TB,
+   technique="TLC on LwCache (complete state graph, action property Fresh keyed on the read label); simulate behaviours replayed against fresh objects"),
  "C10": dict(
    level="model_checking", design="DESIGN.md section 5 C10",
    text="LwParams (value / min / max, ParameterDict) is checked exhaustively by TLC over ALL interleavings of accepted and rejected updates (no depth bound; invariants InBounds, BoundsNumeric; action property RejectedChangesNothing) and its behaviours are replayed into real Parameter / ParameterDict objects with the full state compared after every call. LwCircuit carries parameter references in its ops and a pval variable: TLC checks LiveParams (every circuit's exact matrix is the one for the current values after ANY step, including Parameter.set, rewrites, additions, copies), FrozenProp and frames; dumped and simulated programs are replayed and U, get_all_params and compile errors compared.",
